@@ -4,6 +4,7 @@ import (
 	"fmt"
 
 	"verifharness/core"
+	"verifharness/enc/ev"
 	"verifharness/gen"
 	"verifharness/hist"
 	"verifharness/run"
@@ -15,8 +16,8 @@ import (
 func init() { core.Register("C01", checkC01) }
 
 type c01Scn struct {
-	Index int    `json:"index"`
-	Combo string `json:"combo"`
+	Index int      `json:"index"`
+	Combo string   `json:"combo"`
 	Start hist.Pos `json:"start"`
 }
 
@@ -50,6 +51,12 @@ func checkC01(c *core.Ctx) {
 		replayC01(c)
 		return
 	}
+	if c.Mine(0) && !c.Race {
+		h, tables, cb := c01Huge(c)
+		l := h.Build()
+		c01Run(c, -1, h, l, tables, cb, hist.Pos{File: h.FirstFile, Off: 4})
+		c.Cell("event-larger-than-16MB(split over protocol packets)")
+	}
 	for idx := 0; idx < nh; idx++ {
 		if !c.Mine(idx) {
 			continue
@@ -71,6 +78,36 @@ func checkC01(c *core.Ctx) {
 			c01Run(c, idx, h, l, tables, cb, st)
 		}
 	}
+}
+
+// c01Huge is a history with one event larger than 2^24-1 bytes: the master must
+// split it over several protocol packets and the driver reassembles it.
+func c01Huge(c *core.Ctx) (*hist.History, []*hist.Table, combo) {
+	cb := combo{Checksum: true, RowsV2: true}
+	r := c.Rng(core.StrID("huge"))
+	o := cb.hopts(r)
+	b := gen.NewBuilder(r, o)
+	t := &hist.Table{ID: 77, DB: "dbh", Name: "huge", Cols: []hist.Column{
+		{Name: "id", Type: ev.TLongLong, Unsigned: true}, {Name: "b", Type: ev.TLongBlob, Meta: 4, Nullable: true}, {Name: "n", Type: ev.TLong}}}
+	b.Tables = []*hist.Table{t}
+	b.Add(hist.TxXID)
+	n := 1<<24 + 4096 + r.Intn(100000)
+	data := r.Bytes(n)
+	id := b.ID()
+	idEnc := make([]byte, 8)
+	for i := range idEnc {
+		idEnc[i] = byte(id >> (8 * uint(i)))
+	}
+	row := hist.Row{After: []hist.Value{{Enc: idEnc, Text: []byte(fmt.Sprint(id))},
+		{Enc: append([]byte{byte(n), byte(n >> 8), byte(n >> 16), byte(n >> 24)}, data...), Text: data},
+		{Enc: []byte{1, 0, 0, 0}, Text: []byte("1")}}}
+	u := b.Unit(hist.TxXID)
+	u.Stmts = []hist.Stmt{{Kind: hist.StmtRows, MapTS: b.TS(), TableMaps: []*hist.Table{t},
+		Rows: []hist.RowsEvent{{Kind: ev.KWrite, Table: t, PresentAfter: []bool{true, true, true}, Rows: []hist.Row{row}, TS: b.TS()}}}}
+	u.EndTS = b.TS()
+	b.H.Units = append(b.H.Units, u)
+	b.Add(hist.TxCommit)
+	return b.H, b.Tables, cb
 }
 
 func c01Run(c *core.Ctx, idx int, h *hist.History, l *hist.Layout, tables []*hist.Table, cb combo, st hist.Pos) {
@@ -130,6 +167,11 @@ func replayC01(c *core.Ctx) {
 		return
 	}
 	scn := w.Witness.Scenario
+	if scn.Index < 0 {
+		h, tables, cb := c01Huge(c)
+		c01Run(c, -1, h, h.Build(), tables, cb, scn.Start)
+		return
+	}
 	h, tables, cb := c01History(c, scn.Index)
 	l := h.Build()
 	c01Run(c, scn.Index, h, l, tables, cb, scn.Start)
